@@ -26,6 +26,10 @@ def applyOp (s : RState) (op : String) : Option (RState × String) :=
     let r := recv std s ⟨k, n, b⟩
     pure (r.1, showReply r.2)
   | ["c"] => some (close s, "c")
+  | ["b", n, bs] => do
+    -- SetReadBuffer(n) on a connection with block size bs
+    let n ← n.toNat?; let bs ← bs.toNat?
+    pure (setMax s n bs, "b")
   | ["r", n] => do
     let n ← n.toNat?
     match readOut s n with
@@ -77,6 +81,29 @@ def parseSOp (t : String) : Option SOp :=
 
 def showPacket (p : Packet) : String := s!"{p.seq}:{showBool p.known}:{hexEncode p.payload}"
 
+/-- `C15 lsn <ops>`: listener life cycle.  ops `,`-joined: L Listen, K Listener.Close, A Accept
+called, O<sid> incoming open request.  answer per op: `l` / `k` / `a` / `res` | `na` | `wait`
+(the serve loop is still inside the previous hand-off), each followed by `+c` / `+e` for every
+Accept call that returns a connection / an error at that point -/
+def lsnRun : LState → List String → Option (List String)
+  | _, [] => some []
+  | s, t :: ts => do
+    let (op, tag) ← match t.toList with
+      | ['L'] => some (LOp.listen, "l")
+      | ['K'] => some (LOp.closeL, "k")
+      | ['A'] => some (LOp.accept, "a")
+      | 'O' :: r => (String.ofList r).toNat?.map fun n => (LOp.open n, "o")
+      | _ => none
+    let o := lstep s op
+    let base := match op, o.reply with
+      | .open _, some true => "res"
+      | .open _, some false => "na"
+      | .open _, none => "wait"
+      | _, _ => tag
+    let suffix := String.join (List.replicate o.conns "+c") ++ String.join (List.replicate o.errs "+e")
+    let rest ← lsnRun o.st ts
+    pure ((base ++ suffix) :: rest)
+
 def handle (args : List String) : Option String :=
   match args with
   | ["recv", maxbuf, ops] => do
@@ -91,6 +118,7 @@ def handle (args : List String) : Option String :=
     let b ← bs.toNat?
     let os ← mapM? parseSOp (splitList ops)
     pure (joinList ((mkPackets 0 (srun (sinit b) os).chunks).map showPacket))
+  | ["lsn", ops] => (lsnRun {} (splitList ops)).map joinList
   | ["close", fault] =>
     -- C15 close <none|flush|send|reply|deadline>: Close with a fault at that step, then Read and a
     -- late data packet.  answer: ret=<ok|err> read=<EOF|BLOCK> data=<inf|ack>
